@@ -299,7 +299,7 @@ def run(ctx):
     texts = boundary_float_texts(ctx.seed, q)
     with open(os.path.join(ctx.specdir, "numlit_texts.ndjson"), "w") as fh:
         for t in texts:
-            fh.write(json.dumps({"t": list(t)}) + "\n")
+            fh.write(json.dumps(list(t)) + "\n")
     rf = ctx.tlc("NumLit_genfile.tla", "NumLit_gen_file.cfg", timeout=MC_TIMEOUT, label="gen")
     seen = set()
     state = {"next_id": 0, "nontriv": 0, "total": 0, "by_src": {}}
